@@ -927,6 +927,14 @@ def emit_slice(spec, log, vacuity=False):
     place_ghost_at_anchors(sf, ed, spec, lo, hi + 1, set())
     apply_rws(sf, ed, spec, lo, hi + 1)
     auto_r2(sf, ed, lo, hi + 1)
+    if sel[0] == 'loopbody':
+        # Rule R30: in the lifted body of a loop, an unlabelled `continue` of THAT loop (not of a loop or closure nested in
+        # the body) ends the iteration: it becomes `return <tail>` -- what the lifted function does at its end anyway
+        nested = [(lp[0], m[lp[1]]) for lp in find_loops(sf, lo, hi + 1)] + [(c[0], c[3]) for c in find_closures(sf, lo, hi + 1)]
+        tail_txt = strip_line_comments(spec.sections.get('tail', '')).strip()
+        for k in range(lo, hi + 1):
+            if st[k].text == 'continue' and st[k + 1].text == ';' and not any(a <= k <= b for a, b in nested):
+                ed.rw(st[k].start, st[k].end, 'return ' + tail_txt if tail_txt else 'return', 'R30')
     text = ed.render()
     log.append({'path': spec.path + ' :: ' + desc, 'file': sf.rel, 'start': start, 'end': end, 'sigonly': False, 'slice': True,
                 'rewrites': sorted(set(['S1'] + [r[0] for r in spec.rws] + [e[3] for e in ed.ed if e[3]])),
